@@ -264,4 +264,117 @@ example : ∃ M, sdistMembers exTree exCfg [] = .ok M ∧
 theorem pkginfo_eq_metadata {M : Type} (getMetadataContent : M → String) (m : M) :
     pkgInfo getMetadataContent m = wheelMetadata getMetadataContent m := rfl
 
+/-! ## wheel built from the unpacked sdist -/
+
+/-- an archive as a (member path ↦ content) relation: contents are read from the tree at the source path -/
+def archive (T : Tree) (W : List Sel) : List (Path × String) :=
+  W.filterMap fun w => (T.find? (fun e => e.path == w.src)).map (fun e => (w.arc, e.content))
+
+/-- The property as stated: whenever the wheel's sources are also in the sdist, selecting the wheel's files on
+the unpacked sdist (no VCS there) succeeds and gives the same path ↦ content map.  **False of the code as it
+stands** — see the two counterexamples below; kept as the statement the partial results are measured against. -/
+def wheel_from_sdist_eq_full_statement : Prop :=
+  ∀ (T : Tree) (cfg : Cfg) (ig : List String) (W S : List Sel) (txt : String),
+    select .wheel T cfg ig = .ok W → select .sdist T cfg ig = .ok S →
+    (∀ w ∈ W, ∃ s ∈ S, s.src = w.src) →
+    ∃ W', select .wheel (unpack T S txt) cfg [] = .ok W' ∧
+      ∀ x, x ∈ archive T W ↔ x ∈ archive (unpack T S txt) W'
+
+/-- witness 1: `p/_version.py` is ignored by the VCS and re-included by `include = ["p/_version.py"]`
+(no `format`, hence sdist only) -/
+def cx1Tree : Tree :=
+  [⟨[], true, ""⟩, ⟨["pyproject.toml"], false, "t"⟩, ⟨["p"], true, ""⟩, ⟨["p", "__init__.py"], false, "i"⟩,
+   ⟨["p", "_version.py"], false, "v"⟩]
+
+def cx1Cfg : Cfg where
+  moduleName := "p"
+  rootName := "proj"
+  distName := "p"
+  version := "1.0"
+  packages := []
+  includes := [⟨"p/_version.py", Gen.includeDefaultFormats⟩]
+  excludes := []
+  readmes := []
+  scripts := []
+  hasEntryPoints := false
+
+def cx1S : List Sel :=
+  [⟨["p", "__init__.py"], ["p", "__init__.py"], false⟩, ⟨["p", "_version.py"], ["p", "_version.py"], false⟩,
+   ⟨["pyproject.toml"], ["pyproject.toml"], false⟩]
+
+/-- **Counterexample (VCS-ignored file re-included for the sdist only).** The wheel built from the tree omits
+`p/_version.py` (ignored, and the include is not valid for the wheel); the sdist contains it; the wheel built
+from the unpacked sdist — where no VCS hides anything — contains it.  The premise `wheel ⊆ sdist` holds. -/
+theorem wheel_from_sdist_counterexample_vcs : ¬ wheel_from_sdist_eq_full_statement := by
+  intro h
+  obtain ⟨W', h1, h2⟩ := h cx1Tree cx1Cfg ["p/_version.py"] [⟨["p", "__init__.py"], ["p", "__init__.py"], false⟩] cx1S ""
+    (by decide +kernel) (by decide +kernel) (by decide +kernel)
+  have hw : select .wheel (unpack cx1Tree cx1S "") cx1Cfg [] =
+      .ok [⟨["p", "__init__.py"], ["p", "__init__.py"], false⟩, ⟨["p", "_version.py"], ["p", "_version.py"], false⟩] := by
+    decide +kernel
+  rw [hw] at h1
+  cases h1
+  have := (h2 (["p", "_version.py"], "v")).mpr (by decide +kernel)
+  revert this
+  decide +kernel
+
+/-- witness 2: `include = [{path = "*", format = ["sdist", "wheel"]}]` also matches the `PKG-INFO` that the sdist
+builder generates -/
+def cx2Tree : Tree :=
+  [⟨[], true, ""⟩, ⟨["pyproject.toml"], false, "t"⟩, ⟨["NOTES"], false, "n"⟩, ⟨["p"], true, ""⟩,
+   ⟨["p", "__init__.py"], false, "i"⟩]
+
+def cx2Cfg : Cfg where
+  moduleName := "p"
+  rootName := "proj"
+  distName := "p"
+  version := "1.0"
+  packages := []
+  includes := [⟨"*", ["sdist", "wheel"]⟩]
+  excludes := []
+  readmes := []
+  scripts := []
+  hasEntryPoints := false
+
+def cx2W : List Sel :=
+  [⟨["p", "__init__.py"], ["p", "__init__.py"], false⟩, ⟨["NOTES"], ["NOTES"], false⟩,
+   ⟨["pyproject.toml"], ["pyproject.toml"], false⟩]
+
+/-- **Counterexample (a wheel pattern matches the generated PKG-INFO).** The unpacked sdist contains a file the
+source tree never had; a root-level wildcard include valid for the wheel picks it up. -/
+theorem wheel_from_sdist_counterexample_pkginfo : ¬ wheel_from_sdist_eq_full_statement := by
+  intro h
+  obtain ⟨W', h1, h2⟩ := h cx2Tree cx2Cfg [] cx2W cx2W "m"
+    (by decide +kernel) (by decide +kernel) (by decide +kernel)
+  have hw : select .wheel (unpack cx2Tree cx2W "m") cx2Cfg [] =
+      .ok [⟨["p", "__init__.py"], ["p", "__init__.py"], false⟩, ⟨["NOTES"], ["NOTES"], false⟩,
+           ⟨["PKG-INFO"], ["PKG-INFO"], false⟩, ⟨["pyproject.toml"], ["pyproject.toml"], false⟩] := by decide +kernel
+  rw [hw] at h1
+  cases h1
+  have := (h2 (["PKG-INFO"], "m")).mpr (by decide +kernel)
+  revert this
+  decide +kernel
+
+/-- **Proved fragment (path-locality).** Extra hypothesis: the glob's base directory survives into the
+unpacked tree.  Then every glob the builders evaluate returns, on the unpacked sdist, exactly those of its
+results on the source tree that were packed (whether a path matches depends on the path and its kind only) —
+plus, possibly, the generated `PKG-INFO`.  The composition of this step through `find_excluded_files` and
+`find_files_to_add` to the equality of the two wheels is not proved; it is what the correspondence stream
+`members-wheel-from-sdist` and the byte-for-byte comparison of the two real wheels test. -/
+theorem wheel_from_sdist_eq_partial {T : Tree} {S : List Sel} {txt : String} {base : Path} {pat : Pattern}
+    (hbase : isDirIn (unpack T S txt) base = true) (e : Entry)
+    (hne : e ≠ { path := [Gen.sdistPkgInfoName], isDir := false, content := txt }) :
+    e ∈ globFrom (unpack T S txt) base pat ↔ e ∈ unpack T S txt ∧ e ∈ globFrom T base pat := by
+  rw [mem_globFrom_iff, mem_globFrom_iff]
+  constructor
+  · rintro ⟨_, hU, hm⟩
+    refine ⟨hU, isDirIn_unpack hbase, ?_, hm⟩
+    rcases mem_unpack.mp hU with ⟨hT, _⟩ | rfl
+    · exact hT
+    · exact absurd rfl hne
+  · rintro ⟨hU, _, _, hm⟩
+    exact ⟨hbase, hU, hm⟩
+
+example : isDirIn (unpack cx1Tree cx1S "") ["p"] = true := by decide +kernel
+
 end Poetry.C09
